@@ -158,7 +158,7 @@ def gen_history(rng, maxlen=12, from_ctor=False):
                 ops.append({"op": "set_labels_attr", "name": ax[0], "via": rng.choice(holders) if holders and rng.random() < 0.6 else None,
                             "labels": labels, "lkind": ax[1]})
             else:
-                ops.append({"op": rng.choice(["set_labels", "replace_axis", "replace_axis"]), "d": d, "labels": labels, "lkind": ax[1]})
+                ops.append({"op": rng.choice(["set_labels", "replace_axis", "replace_axis", "replace_axis_raw"]), "d": d, "labels": labels, "lkind": ax[1]})
             ax[2][:] = labels
         elif r < 0.9 and sim.vars:
             old = rng.choice(list(sim.vars))
@@ -263,6 +263,9 @@ class C13(Prop):
         elif t == "replace_axis":
             name = ds.axes[op["d"][1]].name
             ds.axes[op["d"][1]] = Axis(core.label_array(op["labels"], op["lkind"]), name)
+        elif t == "replace_axis_raw":
+            # plain labels (not an Axis object) assigned to the dataset's axis
+            ds.axes[op["d"][1]] = core.label_array(op["labels"], op["lkind"])
         elif t == "rename_key":
             ds.rename_keys({op["old"]: op["new"]})
         elif t == "append_axis":
@@ -272,7 +275,8 @@ class C13(Prop):
 
     def request(self, c):
         # attribute-style relabelling is the same state change as set_axis by name
-        ops = [dict(op="set_labels", d=["name", o["name"]], labels=o["labels"], lkind=o["lkind"]) if o["op"] == "set_labels_attr" else o
+        ops = [dict(op="set_labels", d=["name", o["name"]], labels=o["labels"], lkind=o["lkind"]) if o["op"] == "set_labels_attr" else
+               (dict(o, op="replace_axis") if o["op"] == "replace_axis_raw" else o)
                for o in c["ops"]]
         return {"op": "ds_history", "ops": ops}
 
